@@ -537,14 +537,6 @@ theorem getD_mem {l : Bytes} {j : Nat} (hj : j < l.length) : l.getD j 0 ∈ l :=
   rw [List.getD_eq_getElem?_getD, List.getElem?_eq_getElem hj]
   simp
 
-theorem bind_eq_ok {α β : Type} {r : Res α} {f : α → Res β} {x : β} (h : r.bind f = .ok x) :
-    ∃ a, r = .ok a ∧ f a = .ok x := by
-  cases r with
-  | ok a => exact ⟨a, rfl, h⟩
-  | err l c m => cases h
-  | oob => cases h
-  | fuel => cases h
-
 /-- a token that starts a tag starts with `<` -/
 theorem tokenAt_tag_byte {t : Bytes} {p : Pos} {tp : Token × Pos} (hp : p.pos ≤ t.length)
     (h : tokenAt t p = .ok tp) (htag : isTag tp.1.type) : t.getD p.pos 0 = 60 := by
